@@ -32,9 +32,11 @@ RealClasses == <<
   <<4,0,5,6,8,0,0,0,0,0,0,0,0,0,0,0>>,            \* 90.0
   <<3,15,5,0,6,2,4,13,13,2,15,1,10,9,15,12>>,     \* 0.001
   <<3,14,1,1,2,14,0,11,14,8,2,6,13,6,9,5>>,       \* 1e-9
+  <<3,14,1,1,2,14,0,11,14,8,2,6,13,6,9,6>>,       \* 1e-9 + ulp: a different number (nothing is "close enough" to a decimal power)
   <<3,15,10,15,15,15,15,15,15,15,15,15,15,15,15,15>>, \* just below 1/16
   <<12,0,7,0,14,0,0,0,0,0,0,0,0,0,0,0>>,          \* -270.0
   <<3,15,15,0,0,0,0,0,0,0,0,0,0,0,0,1>>,          \* 1 + ulp
+  <<3,15,5,0,6,2,4,13,13,2,15,1,10,9,15,11>>,     \* 0.001 - ulp
   <<0,0,0,0,0,0,0,0,0,0,0,0,0,0,0,0>>,            \* 0.0
   \* the extremes of what a normalised GDSII real can hold: exponent field 0 (16^-65, 3 * 16^-65) and 127 (just below 16^63)
   <<2,15,11,0,0,0,0,0,0,0,0,0,0,0,0,0>>,          \* 2^-260 = 16^-65
